@@ -263,6 +263,31 @@ class SymBytes:
         b = self._pos(hi, len(self.cells))
         return SymBytes(self.cells[a:b])
 
+    def __contains__(self, needle):
+        """`needle in data` for a concrete needle: True when it occurs in the concrete bytes, False when no position can
+        hold it whatever the symbolic bytes are; otherwise the answer depends on the payload (Undecided, marked so that
+        a rule about 'every payload' can read it as 'for some payloads')"""
+        if isinstance(needle, SymBytes):
+            needle = needle.concrete()
+        if isinstance(needle, int):
+            needle = bytes([needle])
+        if not isinstance(needle, (bytes, bytearray)):
+            raise Undecided("containment of a symbolic needle")
+        cells, n = self.cells, len(needle)
+        if n == 0:
+            return True
+        maybe = any(isinstance(c, Blob) for c in cells)
+        for i in range(0, len(cells) - n + 1):
+            window = cells[i:i + n]
+            if all(isinstance(c, int) and c == needle[j] for j, c in enumerate(window)):
+                return True
+            if all((isinstance(c, int) and c == needle[j]) or not isinstance(c, (int, Blob)) for j, c in enumerate(window)):
+                maybe = True     # only symbolic bytes stand in the way
+        # a blob next to concrete bytes can complete a partial match at its border too: any blob makes it payload-dependent
+        if maybe:
+            raise Undecided(f"containment of {bytes(needle)!r} in symbolic bytes: depends on the payload")
+        return False
+
     def startswith(self, prefix):
         if isinstance(prefix, tuple):
             return any(self.startswith(x) for x in prefix)
